@@ -1201,6 +1201,30 @@ func main() {
 	for _, c := range reg {
 		run(c, "regression")
 	}
+	// 1a. AES: EVERY key length 0..40 (and 48, 56, 64) with a 16 byte IV, and IV lengths around 16 with valid keys,
+	// deterministically, in several placements (alone, first, middle, last, inside a second / third group)
+	{
+		type kv struct{ k, iv int }
+		var sizes []kv
+		for k := 0; k <= 40; k++ {
+			sizes = append(sizes, kv{k, 16})
+		}
+		for _, k := range []int{48, 56, 64} {
+			sizes = append(sizes, kv{k, 16})
+		}
+		for _, k := range []int{8, 16, 24, 32} {
+			for _, iv := range []int{0, 1, 8, 15, 17, 24, 32} {
+				sizes = append(sizes, kv{k, iv})
+			}
+		}
+		for _, z := range sizes {
+			a := SB("AES", nil, pat(z.k, 3, 5), pat(z.iv, 9, 1))
+			h, t, j := SB("Host", nil, lit("h:1")), S("Bit", 0xC0), S("Jitter", 7)
+			for _, g := range [][][]Spec{{{a}}, {{a, h, t}}, {{h, a, t}}, {{h, t, a}}, {{h, t}, {j, a, S("Bit", 0xC2)}}, {{h, a}, {h, t}, {a}}} {
+				run(Case{Focus: "aes-size", Groups: g}, "aes-sizes")
+			}
+		}
+	}
 
 	// 1b. aliasing histories: Setting values shared between live Configs (single-setting Pack, then Add / AddGroup,
 	// interleaved), evaluated only after every config is complete
